@@ -50,7 +50,7 @@ fn loopback(acc: &Acceptor, c: &Cfg, first: &Pdu, k: u64) -> Obs {
     // spread the connections over 127.0.0.0/8 so that closed connections never collide
     let ip = std::net::Ipv4Addr::new(127, 0, (k / 250 % 250) as u8, (k % 250 + 1) as u8);
     let mut sock = TcpStream::connect((ip, acc.port)).unwrap();
-    sock.set_read_timeout(Some(Duration::from_secs(10))).unwrap();
+    sock.set_read_timeout(Some(Duration::from_secs(60))).unwrap();
     let _ = sock.set_nodelay(true);
     let sent = write_one(&mut sock, first);
     let mut buf = Vec::new();
